@@ -233,7 +233,8 @@ def indirect(ctx, c):
     def report(kind, text, replay):              # at most two reports per indirect user
         nfail[kind] = nfail.get(kind, 0) + 1
         if nfail[kind] <= 2:
-            c.failures.append(Failure('correspondence', text, replay=dict(replay, indirect=kind)))
+            c.failures.append(Failure('search', text, signature='C09:user-' + kind, replay=dict(replay, indirect=kind),
+                                      found_input=True, theorem='tq_refines_spec'))
     for steps, r in sorted(zip(ax, res['atexit']), key=lambda x: len(x[0])):
         c.count('indirect:atexit')
         if 'error' not in r:
